@@ -1441,6 +1441,24 @@ impl<'t> Gen<'t> {
         if self.prog.modules.len() > 1 {
             self.labels.insert("multi-module");
         }
+        // Kinds that were read off a body mentioning a declaration whose own kind was not yet
+        // known: settle them now that every body exists.
+        for _ in 0..8 {
+            let mut changed = false;
+            let pending: Vec<Bid> = self.prog.decls().filter(|(_, d)| self.prog.binders[d.id].k == K::Ranges).map(|(_, d)| d.id).collect();
+            for id in pending {
+                let actual = self.prog.decl(id).and_then(|(_, d)| self.kind_of(&d.body));
+                if let Some(k) = actual {
+                    if k != K::Ranges {
+                        self.prog.binders[id].k = k;
+                        changed = true;
+                    }
+                }
+            }
+            if !changed {
+                break;
+            }
+        }
         (self.prog, self.labels)
     }
 }
